@@ -70,13 +70,19 @@ def run_c(vlib, cbin, cases, timeout=600):
     return rc, lines, logs, "\n".join(tail)
 
 
-COQ_HEAD = """From Coq Require Import ZArith List.
+COQ_HEAD = """From Coq Require Import ZArith List Uint63.
 Import ListNotations.
 From LibaV Require Import C08.Instances.
 Local Open Scope Z_scope.
 Set Printing Depth 100000000.
 Set Printing Width 4000.
+Notation "a # b" := (a%uint63, b%uint63) (at level 0, only parsing).
 """
+
+
+def pr(u):
+    """a double's bit pattern as the pair of 32-bit halves the model takes"""
+    return "%d#%d" % (u >> 32, u & 0xffffffff)
 
 
 def coq_case(c, log):
@@ -84,11 +90,12 @@ def coq_case(c, log):
     for a, r in log:
         if a not in seen:
             seen.add(a)
-            tbl.append("(0x%x, 0x%x)" % (a, r))
+            tbl.append("(%s, %s)" % (pr(a), pr(r)))
     return "Eval vm_compute in (run_case %d %d%%nat [%s] [%s] [%s]).\n" % (
-        c.mask, c.n, "; ".join("0x%x" % u for u in c.A), "; ".join("0x%x" % u for u in c.b), "; ".join(tbl))
+        c.mask, c.n, "; ".join(pr(u) for u in c.A), "; ".join(pr(u) for u in c.b), "; ".join(tbl))
 
 
+_SCOPE = re.compile(r"%\w+")
 _TUP = re.compile(r"\(\s*(\d+)\s*,\s*\[([^\]]*)\]\s*\)")
 
 
@@ -109,9 +116,11 @@ def parse_coq(out, ncases):
                 if it == "E":
                     items.append("OOB")
                     continue
-                k, v = it.split(None, 1)
-                v = int(v.strip().strip("()").replace(" ", ""))
-                items.append(("%d" % v) if k == "I" else hx(v))
+                w = _SCOPE.sub("", it).replace("(", " ").replace(")", " ").split()
+                if w[0] == "I":
+                    items.append("%d" % int("".join(w[1:])))
+                else:
+                    items.append(hx((int(w[1]) << 32) | int(w[2])))
             lines.append(" ".join([m.group(1)] + items))
         res.append(lines)
     return res
